@@ -182,9 +182,23 @@ fn noise_result(r: Result<(litep2p::crypto::verif::NoiseSocket<impl futures::io:
         Ok((_socket, peer)) => {
             let mut o = vec![0];
             el(&mut o, &peer.to_bytes());
-            o
+            // consumer stage: the id the handshake hands to the connection (compared with the dialed
+            // peer, put into /p2p components by the address book)
+            match super::consume::stage(super::consume::STAGE_NOISE, || super::consume::peer_id_conversions(peer)) {
+                Ok(m) if m == peer.to_bytes() => o,
+                _ => vec![CONSUMER_BODY],
+            }
         }
         Err(e) => vec![negotiation_code(&e)],
+    }
+}
+/// body marker of a handshake whose consumer stage failed (turned into the trace `3 stage`)
+const CONSUMER_BODY: u64 = 987_654_321;
+fn noise_hdr(peak: u64, body: Vec<u64>) -> Vec<u64> {
+    if body == [CONSUMER_BODY] {
+        vec![super::consume::CONSUMER_PANIC, super::consume::STAGE_NOISE]
+    } else {
+        hdr(peak, NOISE_BOUND, 0, body)
     }
 }
 
@@ -212,7 +226,7 @@ pub fn noise(cur: &mut Cur, case: &mut Vec<u64>) -> Option<Vec<u64>> {
                     rt.block_on(handshake(io, &kp, role, 5, 2, t, HandshakeTransport::Tcp))
                 })
             });
-            Some(hdr(peak, NOISE_BOUND, 0, noise_result(r)))
+            Some(noise_hdr(peak, noise_result(r)))
         }
         1 => {
             let payload = cur.bytes()?;
@@ -253,7 +267,7 @@ pub fn noise(cur: &mut Cur, case: &mut Vec<u64>) -> Option<Vec<u64>> {
                     })
                 })
             });
-            Some(hdr(peak, NOISE_BOUND, 0, noise_result(r)))
+            Some(noise_hdr(peak, noise_result(r)))
         }
         _ => None,
     }
@@ -568,6 +582,12 @@ pub fn mdns(cur: &mut Cur, case: &mut Vec<u64>) -> Option<Vec<u64>> {
         let body = match r {
             VerifMdnsOutcome::ParseError => vec![0],
             VerifMdnsOutcome::Discovered(addrs) => {
+                // consumer stage: what is done with a discovered address
+                for a in &addrs {
+                    if super::consume::stage(super::consume::STAGE_MADDR, || super::consume::maddr_consumers(a)).is_err() {
+                        return Some(vec![super::consume::CONSUMER_PANIC, super::consume::STAGE_MADDR]);
+                    }
+                }
                 let mut l: Vec<Vec<u8>> = addrs.iter().map(|a| a.to_vec()).collect();
                 l.sort();
                 let mut o = vec![1];
